@@ -237,7 +237,7 @@ def work_gen(task):
                                       "reason": "driver crashed: " + e.report[-3000:], "signature": "C06:crash:%d" % i})
             except DriverTimeout:
                 ev.inconc("watchdog")
-            for l in ("inherit-link", "both-links", "import-edge"):
+            for l in ("inherit-link", "both-links", "link-tree", "import-edge"):
                 if g.labels.get(l):
                     ev.label("gen:" + l, g.labels[l])
     finally:
@@ -297,6 +297,7 @@ def main(tier, seed):
                                "a DIE with both DW_AT_specification and DW_AT_abstract_origin supplying one name may take it from either (candidates accepted)",
                                "reference chains are acyclic and <= 8 hops (libdw's own integration stops after 16)"],
                   health={"inheritance links generated": ev.labels.get("gen:inherit-link", 0) > 200,
+                          "two-link trees generated": ev.labels.get("gen:link-tree", 0) > 20,
                           "laws checked": ev.labels.get("law:@AT", 0) > 500 and ev.labels.get("law:?TAG", 0) > 200 and ev.labels.get("law:?FORM", 0) > 200,
                           "samples": ev.labels.get("sample:cooked", 0) >= 8})
 
